@@ -243,7 +243,7 @@ def c18_variants(prop, tier, seed, outdir):
         procs[tags] = (subprocess.Popen([out, "-seed", str(seed), "-tier", tier, "-out", tf],
                                         stdout=subprocess.PIPE, stderr=subprocess.STDOUT, text=True), tf)
     lines = {}
-    tmo = int(os.environ.get("VERIF_TIMEOUT", "5400" if tier == "thorough" else "1500"))
+    tmo = int(os.environ.get("VERIF_TIMEOUT", "5400" if tier == "thorough" else "900"))
     for tags, (p, tf) in procs.items():
         try:
             outp, _ = p.communicate(timeout=tmo)
@@ -382,7 +382,7 @@ def main():
     notes = {}
     race_total = 0
     race_distinct = {}
-    timeout = int(os.environ.get("VERIF_TIMEOUT", "5400" if tier == "thorough" else "1500"))
+    timeout = int(os.environ.get("VERIF_TIMEOUT", "5400" if tier == "thorough" else "900"))
     for part in parts:
         rc, dt, tail, racelog = run_child(part["bin"], prop, tier, seed, part, outdir,
                                            timeout, extra, part.get("env"), race=part.get("race", False))
